@@ -170,35 +170,14 @@ def check(ctx):
 
     # ---- R4: removal predicate ----------------------------------------------
     rm = m.func(CF, '_IncomingPacketHandler.remove_header_callback')
-    gr = cfg_of(rm)
-    removes = gr.find(lambda n: method_call(n, 'remove') and norm(n.func.value) == 'self.cb')
     params = rm.params
     want = {'port': 'port', 'port_mask': 'port_mask', 'channel': 'channel', 'channel_mask': 'channel_mask', 'callback': 'cb'}
-    rebuilds = [st for st in walk_own(rm.node) if isinstance(st, ast.Assign) and norm(st.targets[0]) == 'self.cb' and isinstance(st.value, ast.ListComp)]
-    if removes:
-        for node, call in removes:
-            ent = call.args[0]
-            keys = g_eq_fields(gr.facts_at(node), norm(ent))
-            for field, par in want.items():
-                ok = keys.get(field) == par and par in params
-                ctx.inst('R4', rm, 'remove-eq:' + field, ok,
-                         'removal must require entry.%s == %s; guards found: %s' % (field, par, keys))
-    elif len(rebuilds) == 1 and len(rebuilds[0].value.generators) == 1 and norm(rebuilds[0].value.generators[0].iter) == 'self.cb':
-        # self.cb = [c for c in self.cb if <keep>]: an entry is dropped iff it equals the arguments on all five fields
-        gen = rebuilds[0].value.generators[0]
-        ent = norm(gen.target)
-        dropped = {}
-        for cond in gen.ifs:
-            for f in implied(cond, False):          # facts that hold for a DROPPED entry
-                if f.op == '==' and f.pol:
-                    for a, b in ((f.left, f.right), (f.right, f.left)):
-                        if isinstance(a, ast.Attribute) and norm(a.value) == ent and isinstance(b, ast.Name):
-                            dropped[a.attr] = b.id
+    sites = removal_sites(rm)
+    ctx.need(sites is not None, 'remove_header_callback: removal idiom not recognised')
+    for key, keys in sites:
         for field, par in want.items():
-            ctx.inst('R4', rm, 'remove-eq:' + field, dropped.get(field) == par and par in params,
-                     'an entry may be dropped only if entry.%s == %s; conditions found for a dropped entry: %s' % (field, par, dropped))
-    else:
-        ctx.need(False, 'remove_header_callback: removal idiom not recognised')
+            ok = keys.get(field) == par and par in params
+            ctx.inst('R4', rm, 'remove-eq:' + field, ok, 'an entry may be dropped only if entry.%s == %s; equalities that hold for a dropped entry: %s' % (field, par, keys))
 
     # ---- R5: one receive / one fan-out / one dispatch per iteration ---------
     wl = [n for n in g.nodes if n.kind == 'while']
@@ -248,6 +227,13 @@ def check(ctx):
     rmp = m.func(CF, '_IncomingPacketHandler.remove_port_callback')
     for f, callee in ((addp, 'add_header_callback'), (rmp, 'remove_header_callback')):
         cs = [c for c in walk_own(f.node) if method_call(c, callee)]
+        if f is rmp and not cs and removal_sites(rmp) is not None:
+            # own removal instead of delegation: it must drop exactly the registration add_port_callback made (all five fields)
+            wantp = {'port': 'port', 'callback': 'cb', 'channel': 0, 'port_mask': 0xff, 'channel_mask': 0}
+            for key, keys in removal_sites(rmp):
+                ctx.inst('R6', f, 'port-only-masks', all(keys.get(k) == v for k, v in wantp.items()),
+                         'port-only unregistration must drop only the entry with channel 0 and masks (0xFF, 0x00) for this port and callback; equalities required of a dropped entry: %s' % keys)
+            continue
         ctx.need(len(cs) == 1, '%s does not delegate to %s' % (f.qualname, callee))
         args = [norm(x) for x in cs[0].args[:2]] + [fold_in(f, x) for x in cs[0].args[2:]]
         ctx.inst('R6', f, 'port-only-masks', args == ['cb', 'port', 0, 0xff, 0x0],
@@ -272,14 +258,37 @@ def classify_match(f, cbvar, pkvar):
     return None
 
 
-def g_eq_fields(facts, ent):
+def g_eq_fields(facts, ent, func=None):
+    """{field: parameter name or folded constant} for the facts  <ent>.<field> == <name or constant>."""
     out = {}
     for f in facts:
         if f.op == '==' and f.pol:
             for a, b in ((f.left, f.right), (f.right, f.left)):
-                if isinstance(a, ast.Attribute) and norm(a.value) == ent and isinstance(b, ast.Name):
-                    out[a.attr] = b.id
+                if isinstance(a, ast.Attribute) and norm(a.value) == ent:
+                    if isinstance(b, ast.Name):
+                        out[a.attr] = b.id
+                    elif func is not None and isinstance(fold_in(func, b), int):
+                        out[a.attr] = fold_in(func, b)
     return out
+
+
+def removal_sites(func):
+    """[(key, {field: value})]: for every way `func` drops entries of self.cb, the equalities that hold for a dropped entry.
+    Recognised idioms: `self.cb.remove(x)` under guards, and `self.cb = [c for c in self.cb if <keep>]`.  None if neither is present."""
+    g = cfg_of(func)
+    out = []
+    for node, call in g.find(lambda n: method_call(n, 'remove') and norm(n.func.value) == 'self.cb'):
+        out.append(('remove@%d' % len(out), g_eq_fields(g.facts_at(node), norm(call.args[0]), func)))
+    for st in walk_own(func.node):
+        if isinstance(st, ast.Assign) and norm(st.targets[0]) == 'self.cb' and isinstance(st.value, ast.ListComp) and len(st.value.generators) == 1 \
+                and norm(st.value.generators[0].iter) == 'self.cb' and norm(st.value.elt) == norm(st.value.generators[0].target):
+            gen = st.value.generators[0]
+            facts = [f for cond in gen.ifs for f in implied(cond, False)]          # facts that hold for a DROPPED entry
+            if len(gen.ifs) == 1:
+                out.append(('rebuild@%d' % len(out), g_eq_fields(facts, norm(gen.target), func)))
+            else:
+                out.append(('rebuild@%d' % len(out), {}))                            # several filters: dropped if any fails - no conjunction holds
+    return out or None
 
 
 def barrier(func, loop, call):
@@ -353,6 +362,9 @@ def check_snapshot(ctx, func, klass, loop, itexpr, rule='R2'):
 
 
 VARIANTS = [
+    M('R6', CF, "        self.remove_header_callback(cb, port, 0, 0xff, 0x0)", "        self.cb = [c for c in self.cb if not (c.port == port and c.callback == cb)]", 'port removal drops every registration of cb on the port'),
+    B(CF, "        self.remove_header_callback(cb, port, 0, 0xff, 0x0)",
+      "        self.cb = [c for c in self.cb if not (c.port == port and c.callback == cb and c.channel == 0 and c.port_mask == 0xFF and c.channel_mask == 0)]", 'own rebuild on all five fields'),
     M('R1', CF, 'if cb.port == (pk.port & cb.port_mask) and', 'if cb.port == pk.port and', 'port mask dropped'),
     M('R1', CF, 'cb.channel == (pk.channel & cb.channel_mask)]:', 'cb.channel == (pk.channel | cb.channel_mask)]:', '| instead of &'),
     M('R1', CF, 'cb.channel == (pk.channel & cb.channel_mask)]:', 'cb.channel == (pk.channel & cb.port_mask)]:', 'wrong mask'),
